@@ -667,10 +667,10 @@ def plain_of_ns(rec):
     for k, v in rec.attrs["__dict__"].items():
         if is_ns(v):
             v = plain_of_ns(v)
-        elif isinstance(v, dict) and v and all(is_ns(x) for x in v.values()):
-            v = {kk: plain_of_ns(x) for kk, x in v.items()}
-        elif isinstance(v, list) and v and all(is_ns(x) for x in v):
-            v = [plain_of_ns(x) for x in v]
+        elif isinstance(v, dict):
+            v = {kk: plain_of_ns(x) if is_ns(x) else x for kk, x in v.items()}  # every namespace held by a dict / list value is a branch, whatever stands beside it
+        elif isinstance(v, list):
+            v = [plain_of_ns(x) if is_ns(x) else x for x in v]
         out[unmark(k)] = v
     return out
 
@@ -687,7 +687,7 @@ def ad_post(ctx, st, result):
     d = st.data
     tag = f"[{d['tree']},{d['extra']}]"
     ok = isinstance(result, dict) and deep_same(plain(result), plain_of_ns(d["rec"]))
-    ctx.oblige("post", "as_dict-is-the-nested-dictionary:branches-become-dicts(also inside lists/dicts made only of namespaces),names-without-marks,leaves-as-stored" + tag, ok)
+    ctx.oblige("post", "as_dict-is-the-nested-dictionary:branches-become-dicts(also every namespace inside a list / dict value,whatever stands beside it),names-without-marks,leaves-as-stored" + tag, ok)
 
 
 def gsk_setup(ctx):
